@@ -44,6 +44,43 @@ SpecDec(pos, b) ==
 
 SignedTags == { Tg.b, Tg.s, Tg.I, Tg.l }
 
+\* documented exceptions of C10: a timestamp after 2106-02-07 (read back as milliseconds by design),
+\* a table key longer than 128 characters (truncated with a logged warning)
+RECURSIVE Exempt10(_)
+Exempt10(v) ==
+    CASE v.t \in {"dt", "st"} -> LET ep == DtEpoch(v) IN ~ep.neg /\ CmpMag(ep.mag, MaxSeconds32) > 0
+      [] v.t = "table" -> \E i \in 1..Len(v.e) : Len(v.e[i].k) > 128 \/ Exempt10(v.e[i].v)
+      [] v.t = "array" -> \E i \in 1..Len(v.e) : Exempt10(v.e[i])
+      [] OTHER -> FALSE
+
+RECURSIVE KeysAscending(_)
+KeysAscending(v) ==
+    CASE v.t = "table" -> /\ \A i \in 1..(Len(v.e) - 1) : TextLess(v.e[i].k, v.e[i+1].k)
+                          /\ \A i \in 1..Len(v.e) : KeysAscending(v.e[i].v)
+      [] v.t = "array" -> \A i \in 1..Len(v.e) : KeysAscending(v.e[i])
+      [] OTHER -> TRUE
+
+\* C10 on typed arguments: bool and int compare numerically (True == 1 is not corruption), a bit
+\* argument carries the truth value of what was passed, a falsy non-table where a table is expected
+\* is the documented "None == empty table" generalised
+Truthy(v) == CASE v.t = "bool" -> v.b
+               [] v.t = "int" -> v.mag # <<>>
+               [] v.t = "none" -> FALSE
+               [] v.t = "str" -> v.cp # <<>>
+               [] v.t \in {"table", "array"} -> v.e # <<>>
+               [] v.t \in {"bytes", "bytearray"} -> v.b # <<>>
+               [] v.t = "float" -> ~(DExp(v.d) = 0 /\ DFracIsZero(v.d))
+               [] v.t = "other" -> IF "falsy" \in DOMAIN v THEN ~v.falsy ELSE TRUE
+               [] v.t = "dec" -> v.special # "" \/ \E i \in 1..Len(v.digits) : v.digits[i] # 0
+               [] OTHER -> TRUE
+AsNum(v) == IF v.t = "bool" THEN MkIntV(IF v.b THEN IntOf(1) ELSE IntOf(0)) ELSE v
+NumEq(got, want) == SameValue(AsNum(got), AsNum(want))
+ArgEq10(ty, got, sent) ==
+    CASE ty = "bit" -> got.t = "bool" /\ got.b = Truthy(sent)
+      [] ty = "table" -> IF sent.t = "table" THEN SameValue(got, Norm(sent)) ELSE (~Truthy(sent) /\ SameValue(got, MkTable(<<>>)))
+      [] OTHER -> NumEq(got, Norm(sent))
+ArgExempt10(ty, sent) == IF ty = "table" /\ sent.t # "table" THEN FALSE ELSE Exempt10(sent)
+
 EncodeValue(e) ==
     LET v    == e.in
         spec == SpecEnc(e.pos, legacy, v)
@@ -67,11 +104,19 @@ EncodeValue(e) ==
     \* C04: byte-identical to the reference encoder
     /\ Chk(e, "C04", "accepted", spec.ok => okc)
     /\ Chk(e, "C04", "bytes_equal_reference", (spec.ok /\ okc) => e.out.b = spec.b)
-    \* C10: raise, or emit bytes that decode to the input
+    \* C10: raise, or emit bytes that decode to the input (documented exceptions: Exempt10)
     /\ Chk(e, "C10", "wire_decodes_to_input",
-           okc => (wire.ok /\ wire.n = Len(e.out.b) /\ SameValue(wire.v, want)))
+           (okc /\ ~Exempt10(v)) => (wire.ok /\ wire.n = Len(e.out.b) /\ SameValue(wire.v, want)))
     /\ Chk(e, "C10", "code_decodes_to_input",
-           okc => (e.dec.r = "ok" /\ e.dec.n = Len(e.out.b) /\ SameValue(e.dec.v, want)))
+           (okc /\ ~Exempt10(v)) => (e.dec.r = "ok" /\ e.dec.n = Len(e.out.b) /\ SameValue(e.dec.v, want)))
+    \* C15: the specification never reads st.tz -- bytes and decoded instant are functions of the value alone
+    /\ Chk(e, "C15", "bytes_independent_of_time_zone", spec.ok => (okc /\ e.out.b = spec.b))
+    /\ Chk(e, "C15", "decoded_instant_is_utc", (spec.ok /\ okc) => (e.dec.r = "ok" /\ SameValue(e.dec.v, want)))
+    \* C12: deterministic, input untouched, keys ascending at every level
+    /\ Chk(e, "C12", "second_encoding_identical", okc => (e.out2.r = "ok" /\ e.out2.b = e.out.b))
+    /\ Chk(e, "C12", "input_not_mutated", e.post = e.in)
+    /\ Chk(e, "C12", "bytes_equal_sorted_reference", (spec.ok /\ okc) => e.out.b = spec.b)
+    /\ Chk(e, "C12", "keys_ascending_at_every_level", (okc /\ wire.ok) => KeysAscending(wire.v))
     /\ UNCHANGED st
 
 
@@ -117,6 +162,26 @@ RoundTrip(e) ==
     \* C04: bytes equal the reference encoder
     /\ Chk(e, "C04", "accepted", spec.ok => okc)
     /\ Chk(e, "C04", "bytes_equal_reference", (spec.ok /\ okc) => e.out.b = spec.b)
+    \* C10: whatever was passed, bytes that are emitted decode back to it
+    /\ Chk(e, "C10", "emitted_frame_decodes", okc => (un.r = "ok" /\ un.n = Len(e.out.b)))
+    /\ Chk(e, "C10", "method_arguments_survive",
+           (dec /\ kind = "method") =>
+               (un.f.cls = f.cls /\ \A i \in 1..Len(MethodByName(f.cls).args) :
+                    LET a == MethodByName(f.cls).args[i] IN
+                    ArgExempt10(a.ty, f.vals[a.n]) \/ ArgEq10(a.ty, un.f.vals[a.n], f.vals[a.n])))
+    /\ Chk(e, "C10", "header_survives",
+           (dec /\ kind = "ContentHeader") =>
+               (un.f.cls = "ContentHeader" /\ (f.size_ok => un.f.size = f.size)
+                /\ \A i \in 1..14 : LET q == Properties[i] IN
+                      IF PropSet(f.props[q.n]) THEN ArgExempt10(q.ty, f.props[q.n]) \/ ArgEq10(q.ty, un.f.props[q.n], f.props[q.n])
+                      ELSE ~PropSet(un.f.props[q.n])))
+    /\ Chk(e, "C10", "channel_survives", (dec /\ kind \notin {"ProtocolHeader", "Heartbeat"}) => un.ch = ch)
+    /\ Chk(e, "C10", "body_survives", (dec /\ kind = "ContentBody") => (un.f.cls = "ContentBody" /\ un.f.b = f.b))
+    /\ Chk(e, "C10", "version_survives", (dec /\ kind = "ProtocolHeader") => (un.f.cls = "ProtocolHeader" /\ un.f.v = f.v))
+    \* C12: deterministic and non-mutating
+    /\ Chk(e, "C12", "second_encoding_identical", okc => (e.out2.r = "ok" /\ e.out2.b = e.out.b))
+    /\ Chk(e, "C12", "frame_not_mutated", e.post = e.in)
+    /\ Chk(e, "C12", "bytes_equal_sorted_reference", (spec.ok /\ okc) => e.out.b = spec.b)
     /\ UNCHANGED st
 
 \* ---- fixed-width integer encoders, direct marshal() calls, by_type ----------
@@ -145,9 +210,17 @@ MarshalPart(e) ==
     /\ UNCHANGED st
 
 EncodeArg(e) ==
-    LET spec == EncArg(legacy, e.ty, e.in) okc == e.out.r = "ok" IN
+    LET spec == EncArg(legacy, e.ty, e.in) okc == e.out.r = "ok"
+        wire == IF okc THEN DecArgVal(e.ty, e.out.b) ELSE Bad
+    IN
     /\ Chk(e, "C04", "accepted", spec.ok => okc)
     /\ Chk(e, "C04", "bytes_equal_reference", (spec.ok /\ okc) => e.out.b = spec.b)
+    /\ Chk(e, "C15", "bytes_independent_of_time_zone", spec.ok => (okc /\ e.out.b = spec.b))
+    /\ Chk(e, "C15", "decoded_instant_is_utc", (spec.ok /\ okc) => (e.dec.r = "ok" /\ SameValue(e.dec.v, Norm(e.in))))
+    /\ Chk(e, "C10", "wire_decodes_to_input",
+           (okc /\ ~ArgExempt10(e.ty, e.in)) => (wire.ok /\ wire.n = Len(e.out.b) /\ ArgEq10(e.ty, wire.v, e.in)))
+    /\ Chk(e, "C10", "code_decodes_to_input",
+           (okc /\ ~ArgExempt10(e.ty, e.in)) => (e.dec.r = "ok" /\ e.dec.n = Len(e.out.b) /\ ArgEq10(e.ty, e.dec.v, e.in)))
     /\ UNCHANGED st
 
 \* ---- static traces: catalogue (C14), reply codes and constants (C17) --------
@@ -316,6 +389,7 @@ DecodeValueEv(e) ==
     /\ Chk(e, "C05", "accepts_well_formed_value", spec.ok => okc)
     /\ Chk(e, "C05", "consumes_value", (spec.ok /\ okc) => o.n = spec.n)
     /\ Chk(e, "C05", "reference_value", (spec.ok /\ okc) => SameValue(o.v, spec.v))
+    /\ Chk(e, "C15", "decoded_instant_is_utc", spec.ok => (okc /\ o.n = spec.n /\ SameValue(o.v, spec.v)))
     /\ Chk(e, "C08", "terminates_within_step_budget", o.r # "budget")
     /\ Chk(e, "C08", "steps_linear_in_input", e.steps <= 16 * Len(e.b) + 256)
     /\ Chk(e, "C05", "unrepresentable_timestamp_refused",
@@ -426,6 +500,12 @@ Quiesce(e) ==
     /\ Chk(e, "C20", "all_frames_received_buffer_empty", st.got = Len(st.sent) /\ st.buf = <<>> /\ e.buflen = 0 /\ e.got = st.got)
     /\ UNCHANGED st
 
+\* two tables with equal contents, different insertion order (C12)
+SameBytes(e) ==
+    /\ Premise(e, "same_contents", SameValue(e.in1, e.in2))
+    /\ Chk(e, "C12", "insertion_order_irrelevant", e.out1.r = e.out2.r /\ (e.out1.r = "ok" => e.out1.b = e.out2.b))
+    /\ UNCHANGED st
+
 ToggleArg(a) == IF a = "false" THEN FALSE ELSE TRUE      \* "true", "noarg" -> TRUE
 Toggle(e) == st' = [st EXCEPT !.legacy = ToggleArg(e.arg)]
 SetTZ(e)  == st' = [st EXCEPT !.tz = e.z]
@@ -455,6 +535,7 @@ Step == /\ l <= Len(Events)
              [] e.a = "SetThenMarshal" -> SetThenMarshal(e)
              [] e.a = "CharBlock"   -> CharBlock(e)
              [] e.a = "Observe"     -> Observe(e)
+             [] e.a = "SameBytes"   -> SameBytes(e)
              [] e.a = "StreamReset" -> StreamReset(e)
              [] e.a = "Send"        -> SendEv(e)
              [] e.a = "Deliver"     -> DeliverEv(e)
